@@ -1,7 +1,7 @@
 #!/bin/sh
 # tools/seedtest.sh <patch.diff> <ID> [<ID>...] : apply a seeded change to /repo, run the
 # named checks (quick tier), revert.  Prints one line per check: CAUGHT / MISSED.
-p="$1"; shift
+p=$(readlink -f "$1"); shift
 cd /verif
 git -C /repo diff --quiet || { echo "repo not clean"; exit 2; }
 git -C /repo apply "$p" || { echo "patch does not apply"; exit 2; }
